@@ -118,8 +118,16 @@ def lastPersist (effs : List Effect) : Option Durable :=
 def lastNotify (effs : List Effect) : Option Just :=
   effs.foldl (fun acc e => match e with | .notify j => some j | _ => acc) none
 
+def isQueue : Effect → Bool
+  | .queueBlock .. => true
+  | _ => false
+
+/-- The hand-over of a block to storage (`queue_next_block`) is performed by the store's background task, so its
+position relative to the handler's own effects depends on task scheduling: the comparison lists the queue effects
+after the others (their relative order is kept). -/
 def obsJ (c : Committee) (cls : String) (why : Option String) (effs : List Effect) (r : Replica) : Json :=
-  Json.mkObj [("class", Json.str cls), ("_why", optJ Json.str why), ("effects", Json.arr (effs.map (effectJ c)).toArray), ("snap", snapJ c r)]
+  let effs' := effs.filter (fun e => !isQueue e) ++ effs.filter isQueue
+  Json.mkObj [("class", Json.str cls), ("_why", optJ Json.str why), ("effects", Json.arr (effs'.map (effectJ c)).toArray), ("snap", snapJ c r)]
 
 def applyStep (s : St) (j : Json) (inp : Input) : St × Json :=
   let e := env? j
@@ -155,6 +163,16 @@ def stepLine (s : St) (j : Json) : St × Json :=
     match (getObj j "msg").bind msg?, getNat j "from" with
     | some m, some k => applyStep s j (.msg { msg := m, key := k, sigOk := (getBool j "sig_ok").getD true })
     | _, _ => (s, badOp)
+  | some "implied" =>
+    -- the decision function alone: `get_implied_block` on an (already verified) justification
+    match (getObj j "just").bind just? with
+    | some jj =>
+      let (num, oh) := jj.impliedBlock s.cfg.c
+      (s, Json.mkObj [("num", natJ num), ("hash", optNatJ oh),
+        ("hv", optJ (fun (h : Header) => Json.arr #[natJ h.number, natJ h.payload])
+          (match jj with | .timeout q => q.highVote s.cfg.c | .commit _ => none)),
+        ("hq_view", optNatJ (match jj with | .timeout q => q.highQC.map (fun x => x.message.view.number) | .commit _ => none))])
+    | none => (s, badOp)
   | some "tick" => applyStep s j .tick
   | some "restart" =>
     let r := Replica.start s.durable
@@ -170,5 +188,16 @@ def stepLine (s : St) (j : Json) : St × Json :=
       | none => (s, Json.mkObj [("class", "waiting")])
       | some m => (s, Json.mkObj [("class", "proposal"), ("msg", msgSumJ s.cfg.c m)])
   | _ => (s, badOp)
+
+/-- several replicas side by side (multi-replica simulations): the op's `rid` selects the replica (default 0) -/
+structure Multi where
+  sts : List (Nat × St) := []
+
+def multiStep (m : Multi) (j : Json) : Multi × Json :=
+  let rid := (getNat j "rid").getD 0
+  let cur : St := ((m.sts.find? (fun e => e.1 == rid)).map (·.2)).getD {}
+  let (s', o) := stepLine cur j
+  let rest := m.sts.filter (fun e => e.1 != rid)
+  ({ sts := (rid, s') :: rest }, o)
 
 end Driver.ReplicaDriver
